@@ -600,10 +600,9 @@ def rawSeek (ph : Phys) (pos : Int) : M Int := do
             return ()
           let vf ← get
           -- has our decoding just traversed a bitstream boundary?
-          let mut work2 := work1
-          if vf.ready ≥ STREAMSET ∧ vf.current_serialno ≠ og.serial ∧ og.bos then
-            decodeClear
-            work2 := work1.reset
+          let crossed : Bool := decide (vf.ready ≥ STREAMSET ∧ vf.current_serialno ≠ og.serial ∧ og.bos = true)
+          (if crossed then decodeClear else pure ())
+          let work2 := if crossed then work1.reset else work1
           let vf ← get
           if vf.ready < STREAMSET then
             match linkOf vf og.serial with
